@@ -180,6 +180,8 @@ impl FeatureState for TravelLimitState {
                         .iter()
                         // consider only jobs with time windows
                         .filter_map(|time_span| time_span.as_time_window())
+                        // an unbounded window (job without time windows) gives no hint for a departure time
+                        .filter(|tw| tw.end < f64::MAX)
                         .map(move |tw| (tw, location))
                 })
             })
